@@ -50,12 +50,28 @@ def load_known():
                 out.append(j)
         if out:
             break
+    # the per-agent files known_findings.<agent>.jsonl
+    import glob
+    for p in sorted(glob.glob(os.path.join(C.VERIF, "known_findings.*.jsonl"))):
+        if os.path.basename(p) == "known_findings.e.jsonl":
+            continue
+        for line in open(p):
+            line = line.strip()
+            if line and not line.startswith("#"):
+                j = json.loads(line)
+                if j.get("property") == PROP and not j.get("fixed"):
+                    out.append(j)
     return out
 
 
 # ------------------------------------------------------------------ abstract programs
 # actions: ("I", path, alias|None, hint) ("F", parents, [(name, alias|None)], hint) ("S", var, int)
 #          ("C", path_list, var, int) ("O", path_list, sid) ("Q", p, q, sid) ("X",) ("T", body) ("R", k, body)
+# Spellings of the SAME abstract action through the module's own FUNCTIONS (the model does not tell them apart: a module
+# has one set of globals, whoever reads or writes it):
+#          ("SC", var, int)            S by the module's own setter: `set_x(v)` in the module's body
+#          ("OG", path_list, sid)      O of <module>.<var> through the module's getter: `obs(m.get_x(), sid)`
+#          ("CT", path_list, var, int) C from a thread the program starts and waits for: `spawn(func() { m.set_x(v) }).wait()`
 
 def hx(b):
     return b.hex() if b else "-"
@@ -70,13 +86,13 @@ def enc_actions(acts, out):
             out += ["F", str(len(a[1]))] + [hx(p) for p in a[1]] + [str(len(a[2]))]
             for n, al in a[2]:
                 out += [hx(n), hx(al) if al is not None else "_"]
-        elif k == "S":
+        elif k in ("S", "SC"):
             out += ["S", hx(a[1]), str(a[2])]
         elif k == "D":
             out += ["D", hx(a[1])]
-        elif k == "C":
+        elif k in ("C", "CT"):
             out += ["C", str(len(a[1]))] + [hx(p) for p in a[1]] + [hx(a[2]), str(a[3])]
-        elif k == "O":
+        elif k in ("O", "OG"):
             out += ["O", str(len(a[1]))] + [hx(p) for p in a[1]]
         elif k == "Q":
             out += ["Q", str(len(a[1]))] + [hx(p) for p in a[1]] + [str(len(a[2]))] + [hx(p) for p in a[2]]
@@ -185,12 +201,19 @@ def render(rng, acts, ind, sid_of):
             lines.append(pad + s)
         elif k == "S":
             lines.append(pad + "%s = %d" % (a[1].decode(), a[2]))
+        elif k == "SC":
+            lines.append(pad + "set_%s(%d)" % (a[1].decode(), a[2]))
         elif k == "D":
             lines.append(pad + "func set_%s(v) { %s = v }" % (a[1].decode(), a[1].decode()))
+            lines.append(pad + "func get_%s() { return %s }" % (a[1].decode(), a[1].decode()))
         elif k == "C":
             lines.append(pad + "%s.set_%s(%d)" % (".".join(p.decode() for p in a[1]), a[2].decode(), a[3]))
+        elif k == "CT":
+            lines.append(pad + "spawn(func() { %s.set_%s(%d) }).wait()" % (".".join(p.decode() for p in a[1]), a[2].decode(), a[3]))
         elif k == "O":
             lines.append(pad + "obs(%s, %d)" % (".".join(p.decode() for p in a[1]), sid_of(a)))
+        elif k == "OG":
+            lines.append(pad + "obs(%s.get_%s(), %d)" % (".".join(p.decode() for p in a[1][:-1]), a[1][-1].decode(), sid_of(a)))
         elif k == "Q":
             lines.append(pad + "obs(%s == %s, %d)" % (".".join(p.decode() for p in a[1]),
                                                       ".".join(p.decode() for p in a[2]), sid_of(a)))
@@ -229,6 +252,7 @@ def render_module(rng, m, idx):
     for (v, init) in m["vars"]:
         lines.append("%s := %d" % (v.decode(), init))
         lines.append("func set_%s(v) { %s = v }" % (v.decode(), v.decode()))
+        lines.append("func get_%s() { return %s }" % (v.decode(), v.decode()))
     assert all(a[0] in ("S", "D") for a in body[:nv]), body[:nv]
     lines += render(rng, body[nv:], 0, lambda a: -1)
     lines.append("tick(%d, 1)" % idx)
@@ -421,6 +445,93 @@ class Gen:
         return with_prologue({"name": name, "ext": rng.choice([b".risor", b".risor", b".rsr"]), "bad": rng.chance(1, 30),
                               "vars": vars_, "body": body})
 
+    def flaky_module(self, name, earlier):
+        """A module that FAILS at its first start(s) and loads when imported again: its body calls the module's own
+        functions (so their code is loaded during the failed attempt), imports, then fails on start 1 (or 1 and 2) - by
+        error() or by an import that fails -, and goes on (more calls of its own functions) only at the start that succeeds."""
+        rng = self.rng
+        vars_ = [(b"x0", 100 + rng.below(800)), (b"x1", 100 + rng.below(800))]
+        body = [("S", v, i) for v, i in vars_]
+        scope = {}
+
+        def own(n):
+            for _ in range(n):
+                v = rng.choice(VARS)
+                body.append((rng.choice(["SC", "SC", "S"]), v, 2000 + rng.below(7000)))
+        own(1 + rng.below(3))
+        if earlier and rng.chance(1, 2):
+            body.append(self.import_action(rng.choice(earlier), scope, avoid_parent=name))
+            if rng.chance(1, 2):
+                self.observe(scope, body, False)
+        nfail = 1 if rng.chance(3, 4) else 2
+        for k in range(1, nfail + 1):
+            if rng.chance(3, 4):
+                body.append(("R", k, [("X",)]))
+            else:
+                # (the statement may bind x0 / x1 - a second declaration of a module variable, inside a block: the module's
+                # attribute stays the variable of the top-level scope; repaired finding module-attribute-inner-block-slot)
+                body.append(("R", k, [self.import_action(rng.choice(MISSING), {}, avoid_parent=name)]))
+            if k < nfail or rng.chance(1, 2):
+                own(1)
+        own(rng.below(3))
+        m = with_prologue({"name": name, "ext": rng.choice([b".risor", b".risor", b".rsr"]), "bad": False,
+                           "vars": vars_, "body": body})
+        m["flaky"] = nfail
+        return m
+
+    def retry_module(self, name, target):
+        """a module whose body catches the failing import(s) of a flaky module and imports it again itself"""
+        rng = self.rng
+        vars_ = [(b"x0", 100 + rng.below(800))]
+        body = [("S", v, i) for v, i in vars_]
+        for _ in range(target["flaky"] if rng.chance(3, 4) else 1):
+            body.append(("T", [("I", target["name"], self.fresh(), "quoted")]))
+        al = self.fresh()
+        body.append(("T", [("I", target["name"], al, "quoted"), ("O", [al, b"x0"], -1), ("OG", [al, b"x1"], -1),
+                           ("C", [al], b"x0", 10 + rng.below(80)), ("O", [al, b"x0"], -1)]))
+        return with_prologue({"name": name, "ext": b".risor", "bad": False, "vars": vars_, "body": body})
+
+    def flaky_prefix(self, mods, scope, acts, expect):
+        """main program: the failing import(s) of a flaky module are caught (try), then the module is imported again - by main
+        or by another module -; every view of the module's globals must be the same one: attribute, getter function,
+        setter function (called by main, by a thread), a second alias"""
+        rng = self.rng
+        flaky = [m for m in mods if m.get("flaky")]
+        retriers = [m for m in mods if m.get("retries")]
+        rng_order = list(flaky)
+        for m in rng_order[:1 + rng.below(2)]:
+            name = m["name"]
+            via = [r for r in retriers if r["retries"] == name]
+            if via and rng.chance(1, 3):
+                acts.append(("T", [("I", via[0]["name"], self.fresh(), "quoted")]))        # the other module does the retrying
+            else:
+                for _ in range(m["flaky"] if rng.chance(4, 5) else rng.below(m["flaky"])):
+                    acts.append(("T", [("I", name, self.fresh(), "quoted")]))
+            a1 = self.fresh()
+            # (an import that still fails ends the program: then nothing below is observed)
+            acts.append(("I", name, a1, "quoted"))
+            scope[a1] = ("mod", name)
+            for v in VARS:
+                s1, s2 = self.next_sid(), self.next_sid()
+                acts += [("O", [a1, v], s1), ("OG", [a1, v], s2)]
+                expect.append(("equal", s1, s2, "module %r imported again after a failed first import: the attribute %s and the "
+                               "module's own function get_%s() show different values (the module's globals exist twice)"
+                               % (name, v.decode(), v.decode())))
+            v = rng.choice(VARS)
+            w = 20000 + rng.below(9000)
+            s3, s4 = self.next_sid(), self.next_sid()
+            acts += [(rng.choice(["C", "C", "CT"]), [a1], v, w), ("O", [a1, v], s3), ("OG", [a1, v], s4)]
+            expect += [("is", s3, "i:%d" % w, "module %r imported again after a failed first import: %s does not read back "
+                        "through the attribute after set_%s" % (name, v.decode(), v.decode())),
+                       ("is", s4, "i:%d" % w, "module %r imported again after a failed first import: %s does not read back "
+                        "through get_%s() after set_%s" % (name, v.decode(), v.decode(), v.decode()))]
+            a2 = self.fresh()
+            s5, s6 = self.next_sid(), self.next_sid()
+            acts += [("I", name, a2, "quoted"), ("O", [a2, v], s5), ("Q", [a1], [a2], s6)]
+            scope[a2] = ("mod", name)
+            expect += [("is", s5, "i:%d" % w, "a second alias of module %r does not show the value written through the first" % name),
+                       ("is", s6, "b:true", "two aliases of module %r compare unequal" % name)]
+
     def tree(self, flavour, seed_names=None, twins=0):
         """seed_names: names that must be in the tree (module trees of several import roots share names);
         twins: number of near-duplicate names to add - names that become equal to a name of the tree under some
@@ -451,8 +562,31 @@ class Gen:
         mods = []
         self.names = set(names)
         twin_names = {x for pr in self.twin_pairs for x in pr}
+        flaky_at = {}
+        if flavour == "flaky":
+            # one or two flaky modules, each possibly followed by a module that does the retrying itself
+            cands = [i for i, n in enumerate(names) if all(is_ascii_ident(p) for p in n.split(b"/")) and n.split(b"/")[-1] not in VARS]
+            for _ in range(1 + rng.below(2)):
+                if cands:
+                    i = cands.pop(rng.below(len(cands)))
+                    flaky_at[i] = "flaky"
+            for i in sorted(flaky_at):
+                later = [j for j in cands if j > i]
+                if later and rng.chance(1, 2):
+                    j = later[rng.below(len(later))]
+                    cands.remove(j)
+                    flaky_at[j] = ("retry", i)
+        made = {}
         for i, n in enumerate(names):
-            m = self.module(n, names[:i], names[i + 1:], flavour)
+            if flaky_at.get(i) == "flaky":
+                m = self.flaky_module(n, [x for k2, x in enumerate(names[:i]) if k2 not in flaky_at])
+            elif isinstance(flaky_at.get(i), tuple):
+                m = self.retry_module(n, made[flaky_at[i][1]])
+                m["retries"] = made[flaky_at[i][1]]["name"]
+            else:
+                m = self.module(n, [x for k2, x in enumerate(names[:i]) if k2 not in flaky_at] if flaky_at else names[:i],
+                                names[i + 1:], "dag" if flavour == "flaky" else flavour)
+            made[i] = m
             if n in twin_names:
                 # twins are plain, working modules with different initial values
                 m["bad"] = False
@@ -479,6 +613,10 @@ class Gen:
         acts = [("S", v, i) for v, i in mainvars]
         scope = {}
         n_stmts = 2 + rng.below(7)
+        if any(m.get("flaky") for m in mods):
+            self.flaky_prefix(mods, scope, acts, expect)
+            if rng.chance(1, 3):
+                return acts, mainvars, expect        # (a short program: the retry history and its probes only)
         for _ in range(n_stmts):
             r = rng.below(10)
             if r <= 5:
@@ -576,8 +714,12 @@ class Gen:
         """the same (package, name) imported by a one-name and by a several-name from-import must denote one thing"""
         rng = self.rng
         have = {m["name"] for m in mods}
+        # (a module that fails at its first start and completes at a later one is bound by the SECOND statement only: the first
+        # falls back to the parent's attribute - by design, the model says the same; no expectation for such modules)
+        shaky = unstable_names(mods)
         cands = [m["name"] for m in mods if b"/" in m["name"] and all(is_ascii_ident(p) for p in m["name"].split(b"/"))
-                 and b"/".join(m["name"].split(b"/")[:-1]) in have]
+                 and b"/".join(m["name"].split(b"/")[:-1]) in have and m["name"] not in shaky
+                 and b"/".join(m["name"].split(b"/")[:-1]) not in shaky]
         if not cands:
             return
         t = rng.choice(cands)
@@ -1055,6 +1197,43 @@ def comps_ok(b):
     return all(p not in (b"", b".", b"..") and b"\x00" not in p for p in parts)
 
 
+def unstable_names(mods):
+    """names of modules whose body may fail at one start and complete at a later one (a block that depends on the ordinal of
+    the start - `if __n == k` -, directly or in a module they import): what an import statement of such a module binds
+    depends on how often the import was attempted before"""
+    def walk(acts, reqs, flag):
+        for a in acts:
+            if a[0] == "I":
+                reqs.add(a[1])
+            elif a[0] == "F":
+                par = b"/".join(a[1])
+                reqs.add(par)
+                for n, _ in a[2]:
+                    reqs.add(par + b"/" + n)
+            elif a[0] == "T":
+                walk(a[1], reqs, flag)
+            elif a[0] == "R":
+                flag.append(True)
+                walk(a[2], reqs, flag)
+    g, bad = {}, set()
+    for m in mods:
+        if m["bad"]:
+            continue
+        reqs, flag = set(), []
+        walk(m["body"], reqs, flag)
+        g.setdefault(m["name"], set()).update(reqs)
+        if flag:
+            bad.add(m["name"])
+    changed = True
+    while changed:
+        changed = False
+        for n, rs in g.items():
+            if n not in bad and rs & bad:
+                bad.add(n)
+                changed = True
+    return bad
+
+
 def static_cycle_names(mods):
     """names of modules that lie on a cycle of the static import graph (class predicate of the known finding)"""
     def reqs(acts, out):
@@ -1196,6 +1375,66 @@ def fs_case_sensitive(work):
             os.unlink(p)
         except OSError:
             pass
+
+
+# ------------------------------------------------------------------ witnesses: a module variable declared again in a block
+# (finding module-attribute-resolves-to-inner-block-slot, repaired in /repo 28c8679: all six programs are strict cases; should
+# the class ever be listed as open again in a known_findings file, the in-class ones are reported as KNOWN-FINDING)
+
+SHADOW_CLASS = "module-attribute-inner-block-slot"
+
+
+def block_redeclares(src):
+    """Class predicate of the recorded finding, decided on a module's source text: a name the module declares at the top level
+    of its code (`name :=`, a from-import / import binding) is declared AGAIN inside a nested block of that top-level code
+    (if / for body; function bodies are locals and do not count)."""
+    import re
+    top, inner = set(), set()
+    stack = []      # kinds of the open braces: "func" or "block"
+    for line in src.split("\n"):
+        t = line.strip()
+        names = re.findall(r"^([A-Za-z_][A-Za-z0-9_]*)\s*:=", t)
+        m = re.match(r"^from\s+\S+\s+import\s+\(?(.*?)\)?$", t)
+        if m:
+            for it in m.group(1).split(","):
+                it = it.strip()
+                if it:
+                    names.append(it.split(" as ")[-1].strip())
+        m = re.match(r"^import\s+(\S+)(?:\s+as\s+(\S+))?$", t)
+        if m:
+            names.append(m.group(2) or m.group(1).strip('"').split("/")[-1])
+        m = re.match(r"^for\s+([A-Za-z_][A-Za-z0-9_]*)\s*:=", t)
+        where = inner if ("block" in stack and "func" not in stack) else (top if not stack else None)
+        if where is not None:
+            where.update(names)
+        for ch in t:
+            if ch == "{":
+                stack.append("func" if re.search(r"\bfunc\b", t) else "block")
+            elif ch == "}" and stack:
+                stack.pop()
+    return bool(top & inner)
+
+
+def shadow_witnesses():
+    """-> list of (module files {name: text}, main text, expectations); three programs of the class and three controls"""
+    head = "__n := tick(%d, 0)\nx1 := 5\nfunc set_x1(v) { x1 = v }\nfunc get_x1() { return x1 }\n"
+    main = "import %s as m\nobs(m.x1, 1)\nobs(m.get_x1(), 2)\nm.set_x1(41)\nobs(m.x1, 3)\nobs(m.get_x1(), 4)\n"
+    exp = lambda n: [("equal", 1, 2, "module %r: the attribute x1 and the module's own function get_x1() show different values" % n),
+                     ("is", 3, "i:41", "module %r: x1 does not read back through the attribute after set_x1" % n),
+                     ("is", 4, "i:41", "module %r: x1 does not read back through get_x1() after set_x1" % n)]
+    other = "__n := tick(9, 0)\nx1 := 77\ntick(9, 1)\n"
+    bodies = [
+        ("shadowa", "if false {\n  x1 := 7\n}\n"),                         # the block does not run: the attribute is a Go nil
+        ("shadowb", "if true {\n  x1 := 7\n}\n"),                          # it runs: attribute 7, function 5
+        ("shadowc", "if __n == 2 {\n  from other import (x1)\n}\n"),      # a from-import inside the block
+        ("plaina", "if false {\n  y1 := 7\n}\n"),                          # controls: another name / no block / a function body
+        ("plainb", "y1 := 7\n"),
+        ("plainc", "func f() {\n  x1 := 7\n  return x1\n}\nf()\n"),
+    ]
+    out = []
+    for i, (n, b) in enumerate(bodies):
+        out.append(({n + ".risor": head % i + b + "tick(%d, 1)\n" % i, "other.risor": other}, main % n, exp(n), n))
+    return out
 
 
 # ------------------------------------------------------------------ the check
@@ -1369,7 +1608,7 @@ def body(res, tools, work, proved):
     wf, widx, wlabels = tree_files(rng, wm)
     cases.append({"mods": wm, "files": wf, "idx": widx, "labels": wlabels, "rootarg": "",
                   "progs": wmains, "flavour": "witness"})
-    flavours = ["dag"] * 18 + ["cyclic"] * 4 + ["selfonce"] * 2
+    flavours = ["dag"] * 18 + ["cyclic"] * 4 + ["selfonce"] * 2 + ["flaky"] * 8
     rootargs = ["", "", "", ROOT + "/", "outer/./root", "outer/other/../root", ROOT + "//"]
     case_sensitive = fs_case_sensitive(work)
     if not case_sensitive:
@@ -1538,6 +1777,31 @@ def body(res, tools, work, proved):
                 samples.append({"stage": "tree", "flavour": c["flavour"], "main": case["main"][:300],
                                 "impl_events": o["local"]["events"][:10], "impl_err": o["local"]["err"], "model": mline[:300]})
 
+    # ---------------- witnesses of the recorded finding (a module variable declared again inside a block) and their controls
+    sw = shadow_witnesses()
+    sw_cases = [{"files": {ROOT + "/" + k: v.encode() for k, v in files.items()}, "root": ROOT, "rootarg": "", "mains": [m.encode()]}
+                for files, m, _, _ in sw]
+    sw_out = run_go(tools["c14obs"], sw_cases, work, "stW")
+    stats["shadow_witnesses"] = {"in_class": 0, "controls": 0, "reproduced": 0}
+    for (files, m, exp, n), o in zip(sw, sw_out):
+        in_class = any(block_redeclares(t) for t in files.values())
+        stats["shadow_witnesses"]["in_class" if in_class else "controls"] += 1
+        evals += 1
+        case = {"stage": "tree", "flavour": "shadow-witness", "rootarg": "", "main": m, "modules": files}
+        hit = False
+        for route in ("plain", "local", "fs"):
+            r = o[0][route]
+            viol, _ = oracle(route, parse_real(r["events"], {}), r["err"], {}, exp, set())
+            if r["err"] not in ("ok", "") and not viol:
+                viol = [("state", "evaluation ended with %s" % r["err"], None)]
+            for kind, why, _ in viol:
+                hit = True
+                note_viol(route, (kind, why, SHADOW_CLASS if in_class else None), case)
+        if in_class and hit:
+            stats["shadow_witnesses"]["reproduced"] += 1
+        elif in_class and SHADOW_CLASS in known_classes:
+            res.notes.append("the recorded finding %s no longer reproduces on witness module %s" % (SHADOW_CLASS, n))
+
     cov["evaluations"] = evals
     cov["distinct_nontrivial"] = len(nontrivial)
     cov["rule"] = ("stage A: %d import texts (every escape form of the lexer, hostile path values x 4 statement spellings, "
@@ -1550,7 +1814,12 @@ def body(res, tools, work, proved):
                    "requests, files opened, observed values and module identities compared event by event with the model; every program also runs statement by statement on one VM whose main code grows (REPL style) and must give the same events and outcome as in one piece; "
                    "every third tree holds near-duplicate module names (equal after letter-case folding, Unicode case folding or "
                    "compatibility forms; different files) with probes that each such module runs its own code once and keeps its own "
-                   "x0; %d histories of 4-7 evaluations in ONE process with 2-3 different import roots (trees that share names with "
+                   "x0; trees with FLAKY modules (the body calls the module's own functions, then fails at its first one or two "
+                   "starts - error() or a failing import - and loads when imported again) and modules that catch the failure and "
+                   "retry the import themselves: the failed imports are caught with try, the module is imported again from main or "
+                   "from the other module, and attribute, getter function, setter function (called by main or from a thread the "
+                   "program waits for) and a second alias must all show ONE set of globals; "
+                   "%d histories of 4-7 evaluations in ONE process with 2-3 different import roots (trees that share names with "
                    "different contents, modules present under one root only, root spellings, optionally one LocalImporter per root "
                    "reused across the evaluations): a module file of another root running in an evaluation is an escape; "
                    "independent oracle on the observations. Non-trivial = texts whose import reached the importer, "
@@ -1578,7 +1847,8 @@ def body(res, tools, work, proved):
             kk = "%s/%s" % (v.get("stage"), v.get("aspect"))
             by[kk] = by.get(kk, 0) + 1
         cov["oracle_violations_by_stage"] = by
-        # report one of each (stage, aspect) first
+        # report one of each (stage, aspect) first, the shortest failing program of each
+        oracle_viol.sort(key=lambda v: len(v.get("main") or ""))
         seen, first, rest = set(), [], []
         for v in oracle_viol:
             kk = (v.get("stage"), v.get("aspect"))
